@@ -6,7 +6,7 @@ from . import pure
 NAMES = {10: 'Open', 11: 'OpenPoll', 12: 'Accept', 13: 'Write', 14: 'WriteV', 15: 'Read', 16: 'Shutdown',
          17: 'DropStream', 18: 'Deliver', 19: 'SendDgram', 20: 'GetDgram', 21: 'BindReq', 22: 'BindPoll',
          23: 'NextBind', 24: 'BindReply', 25: 'BindDrop', 26: 'DropMux', 27: 'Inject', 28: 'End', 29: 'Permits',
-         30: 'BridgeStart', 31: 'BridgePoll', 32: 'LocalFeed', 33: 'DropDeliver'}
+         30: 'BridgeStart', 31: 'BridgePoll', 32: 'LocalFeed', 33: 'DropDeliver', 34: 'DeliverAll'}
 OPC = ['Connect', 'Acknowledge', 'Reset', 'Finish', 'Push', 'Bind', 'Datagram']
 
 
@@ -158,6 +158,18 @@ class Trace:
                         self.fail('C06', "label %d: a %s frame of an earlier incarnation of flow %d (sent at label %d, before endpoint %d's new Connect at label %d) "
                                   "is delivered into the new incarnation: something of the old stream leaks into the stream that reuses its id"
                                   % (k, OPC[m[1]], m[2], sent_at, l[1], connect_at[(l[1], m[2])]), "id-reuse-stale-frame")
+            if op == 34 and res[:1] == [0] and len(res) == 2:
+                d = l[1]
+                for _ in range(min(res[1], len(link[d]))):
+                    m, sent_at = link[d].pop(0)
+                    if m[0] == 'frame' and m[1] in (2, 3):
+                        got_end.add((1 - d, m[2]))
+                    if m[0] == 'frame' and m[1] in (1, 2) and sent_at < connect_at.get((1 - d, m[2]), -1):
+                        stale[1 - d] = True
+                    if m[0] == 'frame' and m[1] in (1, 2, 3, 4) and sent_at < connect_at.get((1 - d, m[2]), -1):
+                        self.fail('C06', "label %d: a %s frame of an earlier incarnation of flow %d (sent at label %d, before endpoint %d's new Connect at label %d) "
+                                  "is delivered into the new incarnation: something of the old stream leaks into the stream that reuses its id"
+                                  % (k, OPC[m[1]], m[2], sent_at, 1 - d, connect_at[(1 - d, m[2])]), "id-reuse-stale-frame")
             if op == 18:
                 d = l[1]
                 if res == [0] and link[d]:
@@ -276,16 +288,16 @@ class Trace:
 
 
 LABEL_SETS = {
-    'C02': {13, 14, 15},
-    'C03': {13, 14, 15, 18},
-    'C04': {13, 14, 15, 18, 12},
-    'C05': {13, 14, 15, 16, 18},
-    'C06': {17, 18, 10, 11, 15, 13, 33},
-    'C07': {10, 11, 12, 18},
-    'C08': {26, 28, 29, 18, 11, 12, 13, 15, 20, 22, 23, 33},
-    'C10': {27, 18, 33},
-    'C11': {19, 20, 18},
-    'C15': {21, 22, 23, 24, 25, 18},
+    'C02': {13, 14, 15, 34},
+    'C03': {13, 14, 15, 18, 34},
+    'C04': {13, 14, 15, 18, 12, 34},
+    'C05': {13, 14, 15, 16, 18, 34},
+    'C06': {17, 18, 10, 11, 15, 13, 33, 34},
+    'C07': {10, 11, 12, 18, 34},
+    'C08': {26, 28, 29, 18, 11, 12, 13, 15, 20, 22, 23, 33, 34},
+    'C10': {27, 18, 33, 34},
+    'C11': {19, 20, 18, 34},
+    'C15': {21, 22, 23, 24, 25, 18, 34},
     'C13': {30, 31, 32},
 }
 
